@@ -62,6 +62,30 @@ def all_scripts(nbytes):
     return out
 
 
+def py_decode(hexs):
+    """independent reference of the wire format as the property states it"""
+    s = bytes.fromhex(hexs)
+    i, chunks = 0, []
+    while True:
+        if i >= len(s):
+            return chunks, "eof"
+        b = s[i]; i += 1
+        isdata, more, n = b & 0x80, b & 0x40, b & 0x3f
+        k = 0
+        while more:
+            if k >= 2:
+                return chunks, "toolong"
+            if i >= len(s):
+                return chunks, "ueof"
+            b = s[i]; i += 1; k += 1
+            more, n = b & 0x80, (n << 7) | (b & 0x7f)
+        if i + n > len(s):
+            return chunks, "ueof"
+        if isdata:
+            chunks.append(s[i:i + n].hex())
+        i += n
+
+
 def prop(line, impl, model):
     """The property evaluated on the implementation's own answer (failing-input search)."""
     a = line.split(" ")
@@ -89,11 +113,18 @@ def prop(line, impl, model):
     elif op == "dec":
         if "err=other" in impl:
             return "decoder returned an error outside {EOF, UnexpectedEOF, TooLong}: " + impl[-80:]
+        if a[2][0] == "x":
+            chunks, err = py_decode(a[2][1:])
+            want = "chunks=" + (",".join("x" + c for c in chunks) or "-") + " err=" + err
+            if impl != want:
+                return "byte stream misclassified: expected %s, decoder gave %s" % (want[:120], impl[:120])
     return None
 
 
 def key_of(line, impl, model):
     a = line.split(" ")
+    if a[1] == "dec" and "toolong" in (impl + model):
+        return "prefix-length-limit"
     if a[1] in ("rt", "dec"):
         sc = a[3]
         zero = any(x.rstrip("E") == "0" for x in sc.split(",")) if sc != "-" else False
